@@ -11,6 +11,7 @@ import collections
 import hashlib
 import json
 import math
+import os
 import random
 
 
@@ -196,6 +197,8 @@ class World:
         self.mutating_steps = 0
         self.max_live = 0
 
+    NET_ALL = False
+
     # -- to implement -------------------------------------------------------------------------
     @classmethod
     def swarm(cls, rng: random.Random, tier: str) -> dict:
@@ -232,7 +235,19 @@ class World:
     def apply(self, step: dict) -> str:
         """Apply one concrete step; known findings are recorded and their objects retired."""
         try:
-            return self._apply(step)
+            try:
+                return self._apply(step)
+            except (Violation, HarnessError, MemoryError):
+                raise
+            except Exception as e:
+                # an exception that escaped every guard of the world: when it came out of irispie code (or the world
+                # says that all it does at this point is call the library, NET_ALL) it is a crash of an operation
+                # the model had accepted, not a fault of the harness
+                if not (self.NET_ALL or _through_library(e)):
+                    raise
+                strip_traceback(e)
+                raise Violation("crash", step.get("op", "?"), "unguarded", type(e).__name__,
+                                f"{type(e).__name__}: {str(e)[:160]}") from None
         except Violation as v:
             v.seq = step.get("seq")
             e = self.known.match(v) if self.known is not None else None
@@ -242,6 +257,16 @@ class World:
             self.known_examples.setdefault(v.signature, {"what": e.get("what", ""), "message": v.message})
             self.retire(tuple(self.step_handles(step)) + tuple(v.handles))
             return "known:" + v.klass
+
+
+def _through_library(e: BaseException) -> bool:
+    tb = e.__traceback__
+    marker = os.sep + "irispie" + os.sep
+    while tb is not None:
+        if marker in tb.tb_frame.f_code.co_filename:
+            return True
+        tb = tb.tb_next
+    return False
 
 
 class RunResult:
